@@ -83,12 +83,14 @@ def make_case(rng, i, ctx):
     corr_mode = 'none'
     if kind == 'shared' and m <= 9 and (rng.random() < 0.6 or i % 5 == 0):
         corr_mode = str(rng.choice(['estimated', 'supplied']))
+        if i % 10 == 0:
+            corr_mode = 'estimated'      # (every tenth case is constructed: estimated covariance, migrad, all points on one list - see the tol keyword below)
     if kind == 'common_factor':
         corr_mode = 'estimated'
         zren = pe.cov_Obs(1.0, 0.03 ** 2, 'Zren')
         yall = [o * zren for o in fitgen.data_points(rng, truth, 'independent', m)]
     else:
-        yall = fitgen.data_points(rng, truth, kind, m, nsamp=60 if corr_mode != 'none' else 40, vary_n=bool(kind == 'shared' and rng.random() < 0.5))
+        yall = fitgen.data_points(rng, truth, kind, m, nsamp=60 if corr_mode != 'none' else 40, vary_n=bool(kind == 'shared' and rng.random() < 0.5 and i % 10 != 0))
     [o.gamma_method() for o in yall]
     ys, pos = {}, 0
     for key in sorted(keys):
@@ -96,6 +98,8 @@ def make_case(rng, i, ctx):
         ys[key] = yall[pos:pos + k]
         pos += k
     method = METHODS[int(rng.integers(0, len(METHODS)))]
+    if i % 10 == 0 and corr_mode == 'estimated':
+        method = 'migrad'
     numgrad = bool(rng.random() < 0.25)
     prior_form = str(rng.choice(['none', 'none', 'list_str', 'dict_str', 'dict_obs', 'list_mixed']))
     kw = {'silent': True, 'method': method}
@@ -133,6 +137,16 @@ def make_case(rng, i, ctx):
                 priors[int(k)] = po
     if priors is not None:
         kw['priors'] = priors
+    if corr_mode == 'estimated' and method == 'migrad' and kind == 'shared' and len(yall) >= 3 and yall[0].idl == yall[1].idl:
+        # the minimiser's own keyword, given with the value that is its default anyway (the minimisation is the same), on data with two almost
+        # collinear points (smallest eigenvalue of the correlation matrix about 5e-5): the weights are the inverse of the ESTIMATED covariance,
+        # whatever else is passed along
+        twin1 = (yall[0] - yall[0].value) + float(yall[1].value) + 0.01 * (yall[1] - yall[1].value)
+        twin1.gamma_method()
+        for key in ys:
+            ys[key] = [twin1 if o is yall[1] else o for o in ys[key]]
+        yall[1] = twin1
+        kw['tol'] = 1e-4
     L = None
     if corr_mode != 'none':
         kw['correlated_fit'] = True
